@@ -13,7 +13,7 @@
   space:    -  |  S.. D.. BS.. BD..  |  Z (anything else)
     parse t:<hex units> v<id>                   JSON.parse(text, reviver) (family `reviverFn`); the result is
                                                 <value>|<keys of the reviver calls in call order>
-  results:  parse: det:<value> | unord:<value with sorted keys> | nondet | throw:SyntaxError
+  results:  parse: det:<value> | throw:SyntaxError   (the harness answers unord:/nondet if repeated runs differ)
             str:   s:<hex units> | undefined | throw:TypeError
 -/
 import OttoVerif.Base.Proto
@@ -99,19 +99,17 @@ def reply (m s dev : String) : String := m ++ " " ++ s ++ " " ++ dev
 
 def parseOut : Option JV → String
   | none => "throw:SyntaxError"
-  | some v => (if unordered v then "unord:" else "det:") ++ jvTok v
+  | some v => "det:" ++ jvTok v
+
+/-- region parse_lone_surrogate: the text holds an unpaired surrogate, raw or as an escape -/
+def parseDevs (text : Str) : List String :=
+  if goStr text != text then ["parse_lone_surrogate"]
+  else match parseText text with
+    | some t => if rtAny loneEsc t then ["parse_lone_surrogate"] else []
+    | none => []
 
 def handleParse (text : Str) : String :=
-  let m := C11.jsonParse text
-  let s := Spec.jsonParse text
-  let specTok := match s with | none => "throw:SyntaxError" | some v => "det:" ++ jvTok v
-  let rt := parseText text
-  let dev : List String :=
-    (match s with | some v => if unordered v then ["parse_key_order"] else [] | none => []) ++
-    (match rt with | some t => if rtAny overflows (fun _ => false) t then ["parse_num_overflow"] else [] | none => []) ++
-    (if goStr text != text then ["parse_lone_surrogate"]
-     else match rt with | some t => if rtAny (fun _ => false) loneEsc t then ["parse_lone_surrogate"] else [] | none => [])
-  reply (parseOut m) specTok (joinDev dev)
+  reply (parseOut (C11.jsonParse text)) (parseOut (Spec.jsonParse text)) (joinDev (parseDevs text))
 
 def sA : Str := [97]
 
@@ -134,41 +132,6 @@ def rmsTok : RMs' → String
   | .cons k v t => unitsOut k ++ "." ++ rvTok v ++ rmsTok t
 end
 
-def rmsToList : RMs' → List (Str × RV)
-  | .nil => []
-  | .cons k v t => (k, v) :: rmsToList t
-def rmsOfList : List (Str × RV) → RMs'
-  | [] => .nil
-  | (k, v) :: t => .cons k v (rmsOfList t)
-
-def insSorted (p : Str × RV) : List (Str × RV) → List (Str × RV)
-  | [] => [p]
-  | q :: t => if ltStr q.1 p.1 then q :: insSorted p t else p :: q :: t
-
-mutual
-/-- keys sorted at every level (canonical form of a revived value) -/
-partial def rvCanon : RV → RV
-  | .arr l => .arr (rvCanonL l)
-  | .obj m => .obj (rmsOfList (((rmsToList m).map fun p => (p.1, rvCanon p.2)).foldr insSorted []))
-  | v => v
-partial def rvCanonL : RVs → RVs
-  | .nil => .nil
-  | .cons v t => .cons (rvCanon v) (rvCanonL t)
-end
-
-mutual
-/-- every object's properties rotated by r (Go iterates a small map from a random slot and wraps) -/
-partial def rvRotate (r : Nat) : RV → RV
-  | .arr l => .arr (rvRotateL r l)
-  | .obj m =>
-    let l := (rmsToList m).map fun p => (p.1, rvRotate r p.2)
-    .obj (rmsOfList (l.rotateLeft (r % (max l.length 1))))
-  | v => v
-partial def rvRotateL (r : Nat) : RVs → RVs
-  | .nil => .nil
-  | .cons v t => .cons (rvRotate r v) (rvRotateL r t)
-end
-
 def isObjRV : RV → Bool
   | .null | .arr _ | .obj _ => true
   | _ => false
@@ -186,58 +149,18 @@ def reviverFn : Nat → Option Reviver
 
 def logTok (l : List Str) : String := ",".intercalate (l.map fun k => "k" ++ unitsOut k)
 
-def insStr (p : Str) : List Str → List Str
-  | [] => [p]
-  | q :: t => if ltStr q p then q :: insStr p t else p :: q :: t
-
 def revTok (r : Option RV × List Str) : String :=
   (match r.1 with | some v => rvTok v | none => "U") ++ "|" ++ logTok r.2
-def revCanonTok (r : Option RV × List Str) : String :=
-  (match r.1 with | some v => rvTok (rvCanon v) | none => "U") ++ "|" ++ logTok (r.2.foldr insStr [])
-
-mutual
-/-- `decode` (C11/Model) with the properties left in insertion order: the tree the reviver walk starts
-    from, before the (unknown) map order is applied by `rvRotate` -/
-partial def goTree : RT → Option JV
-  | .null => some .null
-  | .bool b => some (.bool b)
-  | .num n => (goNum n).map JV.num
-  | .str s => some (.str (goCombine s))
-  | .arr l => (goTreeL l).map JV.arr
-  | .obj m => (goTreeM m).map fun ms => JV.obj (defineAll .nil ms)
-partial def goTreeL : RTs → Option JVs
-  | .nil => some .nil
-  | .cons v t => (goTree v).bind fun a => (goTreeL t).map fun b => JVs.cons a b
-partial def goTreeM : RMs → Option JMs
-  | .nil => some .nil
-  | .cons k v t => (goTree v).bind fun a => (goTreeM t).map fun b => JMs.cons (goCombine k) a b
-end
-
-def parseDevs (text : Str) : List String :=
-  let rt := parseText text
-  (match rt with | some t => if rtAny overflows (fun _ => false) t then ["parse_num_overflow"] else [] | none => []) ++
-  (if goStr text != text then ["parse_lone_surrogate"]
-   else match rt with | some t => if rtAny (fun _ => false) loneEsc t then ["parse_lone_surrogate"] else [] | none => [])
 
 def handleRevive (text : Str) (f : Reviver) : String :=
   let fuel := 4 * text.length + 16
-  let modelTok := match (parseText (goStr text)).bind goTree with
+  let modelTok := match C11.jsonParse text with
     | none => "throw:SyntaxError"
-    | some mv =>
-      let runs := (List.range 12).map fun r => reviveTop f fuel (rvRotate r (rvOf mv))
-      let canons := runs.map revCanonTok
-      let c0 := canons.headD ""
-      if canons.any (· != c0) then "nondet"
-      else if unordered mv then "unord:" ++ c0
-      else "det:" ++ revTok (runs.headD (none, []))
-  match Spec.jsonParse text with
-  | none => reply modelTok "throw:SyntaxError" (joinDev (parseDevs text))
-  | some v =>
-    let base := rvOf v
-    let specR := Spec.revive f fuel [] base
-    let dev : List String :=
-      (if unordered v then ["parse_key_order"] else []) ++ parseDevs text
-    reply modelTok ("det:" ++ revTok specR) (joinDev dev)
+    | some mv => "det:" ++ revTok (reviveTop f fuel (rvOf mv))
+  let specTok := match Spec.jsonParse text with
+    | none => "throw:SyntaxError"
+    | some v => "det:" ++ revTok (Spec.revive f fuel [] (rvOf v))
+  reply modelTok specTok (joinDev (parseDevs text))
 
 /-! ### JSON.stringify -/
 
@@ -335,14 +258,11 @@ def handleStr (vt : String) (v : SV) (r : Replacer) (sp : Space) : String :=
   let tree := Spec.serial (Spec.sctxOf numStr r) fuel 0 [] v
   let treeDev : List String := match tree with
     | .val t =>
-      (if jvAny no1 no1 (fun m => !sortedKeys m) t then ["str_key_order"] else []) ++
-      (if jvAny no1 (fun s => s.any htmlChar) no1 t then ["str_html_escape"] else []) ++
-      (if jvAny no1 (fun s => goStr s != s) no1 t then ["str_lone_surrogate"] else []) ++
-      (if jvAny intDigitsDiffer no1 no1 t then ["str_int_digits"] else [])
+      (if jvAny no1 (fun m => !sortedKeys m) t then ["str_key_order"] else []) ++
+      (if jvAny (fun s => s.any lsps) no1 t then ["str_u2028_escape"] else []) ++
+      (if jvAny (fun s => goStr s != s) no1 t then ["str_lone_surrogate"] else [])
     | _ => []
-  let dev := treeDev ++
-    (match r with | .list items => if Spec.plSkipBeforeAccept numStr items then ["str_proplist_slots"] else [] | _ => []) ++
-    (if gapDev sp then ["str_gap_bytes"] else [])
+  let dev := treeDev ++ (if gapLone sp && !treeDev.contains "str_lone_surrogate" then ["str_lone_surrogate"] else [])
   reply (outTok m ++ selfCheck fuel v r sp) (outTok s) (joinDev dev)
 
 def handle (ws : List String) : String :=
